@@ -220,6 +220,24 @@ class _Fold(ast.NodeTransformer):
         return n
 
 
+def _module_constant(mi, e):
+    """A default written as the name of a module-level constant (`delta=DEFAULT_DELTA` with `DEFAULT_DELTA = 1.0` assigned exactly once at
+    module level and never rebound) is that constant; anything else stays as it is."""
+    if not isinstance(e, ast.Name) or mi is None:
+        return e
+    vals = []
+    for st in getattr(mi.tree, "body", []):
+        tg = st.targets if isinstance(st, ast.Assign) else [st.target] if isinstance(st, (ast.AnnAssign, ast.AugAssign)) else []
+        for t in tg:
+            if any(isinstance(x, ast.Name) and x.id == e.id for x in ast.walk(t)):
+                vals.append(st)
+    if len(vals) != 1 or isinstance(vals[0], ast.AugAssign) or getattr(vals[0], "value", None) is None or not _is_const(vals[0].value):
+        return e
+    if any(isinstance(x, ast.Global) and e.id in x.names for x in ast.walk(mi.tree)):
+        return e
+    return ast.copy_location(vals[0].value, e)
+
+
 def specialise_repo(repo) -> list:
     """Apply the pass in place to the repository view.  Returns [(function qual, parameter, default source text)]."""
     from .repo import param_names
@@ -233,7 +251,7 @@ def specialise_repo(repo) -> list:
         by_name.setdefault(fn.name if not q.endswith(".__init__") else q.rsplit(".", 2)[-2], []).append((q, fn, mi))
         if q not in sigs:
             continue
-        dflt = _defaults(fn)
+        dflt = {p_: _module_constant(mi, d_) for p_, d_ in _defaults(fn).items()}
         stored = {n.id for n in ast.walk(fn) if isinstance(n, ast.Name) and isinstance(n.ctx, (ast.Store, ast.Del))}
         now = param_names(fn)
         # a recorded name that is gone means parameters were renamed (or removed): an unrecorded name may then be the renamed one, not an
